@@ -361,7 +361,12 @@ func (t *table) getWhere() goexpr.Expr {
 }
 
 func (t *table) truncateBefore() time.Time {
-	return t.db.clock.Now().Add(-1 * t.RetentionPeriod)
+	now := t.db.clock.Now()
+	if now.IsZero() {
+		// a virtual clock that has not seen a point yet does not tell what is old
+		return time.Time{}
+	}
+	return now.Add(-1 * t.RetentionPeriod)
 }
 
 func (t *table) backfillTo() time.Time {
